@@ -37,6 +37,9 @@ def semiMajorAxis (elem : List (List ℝ)) : ℝ := (elem.getD 1 []).getD 0 0
     (units of 1e-8 rad per Julian millennium) -/
 def leadAmp (tbl : List (List (ℝ × ℝ × ℝ))) : ℝ := ((tbl.getD 1 []).headD (0, 0, 0)).1
 
+/-- the cubic `p0 + p1 t + p2 t² + p3 t³` of a row of an orbital-element table (Meeus ch. 31), Horner form -/
+def cubic (t p0 p1 p2 p3 : ℝ) : ℝ := p0 + t * (p1 + t * (p2 + t * p3))
+
 /-- coefficient of `T²` of the mean longitude, degrees per century² (`table[0][2]`) -/
 def elemAccel (elem : List (List ℝ)) : ℝ := (elem.getD 0 []).getD 2 0
 
